@@ -117,3 +117,14 @@ Theorem c10_tie_crc_step : forall crc b, src_crc_step crc_table crc b = crc_step
 Proof. exact tie_crc_step. Qed.
 Theorem c10_tie_crc_bit_step : forall k crc n, crc_bits (S k) crc n = crc_bits k (fst (src_crc_bit_step crc n)) (snd (src_crc_bit_step crc n)).
 Proof. exact tie_crc_bit_step. Qed.
+(* the message codecs are the statement sequences of the current source (T1d translation, gen/Codecs.v): field order, primitive per field, and the
+   property each decoded value reaches *)
+From VGen Require Import Codecs.
+Theorem c10_tie_parse_kexinit : forall p, parse_kexinit p = src_parse_kexinit p.
+Proof. exact tie_parse_kexinit. Qed.
+Theorem c10_tie_write_kexinit : forall k, write_kexinit k = src_write_kexinit k.
+Proof. exact tie_write_kexinit. Qed.
+Theorem c10_tie_parse_pkm : forall p, parse_pkm p = src_parse_pkm p.
+Proof. exact tie_parse_pkm. Qed.
+Theorem c10_tie_write_pkm : forall m, write_pkm m = src_write_pkm m.
+Proof. exact tie_write_pkm. Qed.
